@@ -21,6 +21,11 @@ def rt(*parts):
     return "rt(" + ",".join(show(p) for p in parts) + ")"
 
 
+def first(x, *rest):
+    """a library call wrapped around a dds call, possibly spread over several lines (returns its first argument)"""
+    return x
+
+
 def hof(f):
     """higher-order use of a function that is only *referenced* in the caller's source"""
     return f()
